@@ -322,11 +322,11 @@ fn patch_evaluations(prop: &str, evals: u64) {
 
 fn c18_inputs() -> Vec<Vec<u8>> {
     let mut v: Vec<Vec<u8>> = Vec::new();
-    // all byte strings of length <= 5 over {a, LF, CR, 0x00, 0xff}
-    let syms = [b'a', b'\n', b'\r', 0u8, 0xffu8];
+    // all byte strings of length <= 4 over {a, LF, CR, 00, ff, space, '#', EF, BB, BF} (incl. the UTF-8 byte order mark)
+    let syms = [b'a', b'\n', b'\r', 0u8, 0xffu8, b' ', b'#', 0xef, 0xbb, 0xbf];
     let mut frontier: Vec<Vec<u8>> = vec![vec![]];
     v.push(vec![]);
-    for _ in 0..5 {
+    for _ in 0..4 {
         let mut nx = Vec::new();
         for f in &frontier {
             for s in syms {
@@ -349,6 +349,10 @@ fn c18_inputs() -> Vec<Vec<u8>> {
         }
     }
     v.push(pat(1 << 20));
+    // affix family: a small mapping and the small corpus files with every "invisible" prefix and suffix a
+    // normalising implementation might strip (byte order marks, blanks, line terminators, NUL)
+    let affixes: [&[u8]; 12] = [b"\xef\xbb\xbf", b"\xff\xfe", b"\xfe\xff", b" ", b"\t", b"\n", b"\r", b"\r\n", b"\n\n", b"\0", b"#", b"\xef\xbb"];
+    let mut bases: Vec<Vec<u8>> = vec![b"p.A -> a:\n    1:2:void p():3:4 -> m\n".to_vec(), b"x".to_vec(), vec![]];
     // corpus files, LF and CRLF variants, with and without a final newline
     for (_, b) in corpus_files() {
         if b.len() > 100_000 {
@@ -362,9 +366,39 @@ fn c18_inputs() -> Vec<Vec<u8>> {
         }
         v.push(crlf);
         v.push(trimmed);
+        bases.push(b.clone());
         v.push(b);
     }
+    for b in &bases {
+        for a in affixes {
+            let mut p = a.to_vec();
+            p.extend_from_slice(b);
+            v.push(p);
+            let mut q = b.clone();
+            q.extend_from_slice(a);
+            v.push(q);
+        }
+    }
     v
+}
+
+/// "depends on nothing but the bytes": the same address and length with different content, consecutively
+/// (a memo keyed by pointer/length, or by a stale hash, answers the second call with the first one's identifier);
+/// returns the indices of inputs whose identifier, computed in the reused buffer, is wrong
+fn c18_same_address(inputs: &[Vec<u8>]) -> Vec<usize> {
+    let max = inputs.iter().filter(|i| i.len() <= 8192).map(|i| i.len()).max().unwrap_or(0);
+    let mut buf = vec![0u8; max];
+    let mut order: Vec<usize> = (0..inputs.len()).filter(|i| inputs[*i].len() <= 8192).collect();
+    order.sort_by_key(|i| inputs[*i].len()); // equal lengths become neighbours
+    let mut bad = Vec::new();
+    for i in order {
+        let n = inputs[i].len();
+        buf[..n].copy_from_slice(&inputs[i]);
+        if uuid_of(&buf[..n]) != sha1::proguard_uuid(&inputs[i]) {
+            bad.push(i);
+        }
+    }
+    bad
 }
 
 fn uuid_of(bytes: &[u8]) -> [u8; 16] {
@@ -402,6 +436,9 @@ pub fn c18_worker(args: &[String]) -> i32 {
         if u != sha1::proguard_uuid(inp) {
             report.push_str(&format!("MISMATCH input {}\n", i));
         }
+    }
+    for i in c18_same_address(&inputs) {
+        report.push_str(&format!("MISMATCH reuse {}\n", i));
     }
     report.push_str(&format!("DIGEST {:016x} {}\n", h64(&all), inputs.len()));
     std::fs::write(&out, report).expect("write report");
@@ -445,6 +482,11 @@ pub fn run_c18(tier: Tier) -> i32 {
         c18_check(inp, &mut acc);
         all.extend_from_slice(&uuid_of(inp));
     }
+    for i in c18_same_address(&inputs) {
+        acc.violation("uuid:depends-on-address-or-history", inputs[i].len(), || (format!("input #{} ({} bytes) copied into a reused buffer (same address and length as the previous input, different content) got a wrong identifier", i, inputs[i].len()), json!({"kind":"uuid-reuse","index":i})));
+    }
+    acc.transitions += inputs.len() as u64;
+    acc.observations += inputs.len() as u64;
     // equal files get equal identifiers; LF vs CRLF variants get different ones (nothing is normalised)
     acc.sample(3, || json!({"input": "p.A -> a:\\n", "uuid": hex(&uuid_of(b"p.A -> a:\n")), "independent_sha1_v5": hex(&sha1::proguard_uuid(b"p.A -> a:\n"))}));
     acc.sample(3, || json!({"input": "(empty)", "uuid": hex(&uuid_of(b""))}));
@@ -462,6 +504,9 @@ pub fn run_c18(tier: Tier) -> i32 {
         for l in rep.lines() {
             if l.starts_with("MISMATCH race") {
                 acc.violation("uuid:race-on-first-use", 1, || (format!("process {}: two threads racing on the first uuid() call: {}", s, l), json!({"kind":"uuid-race"})));
+            } else if let Some(i) = l.strip_prefix("MISMATCH reuse ") {
+                let i: usize = i.parse().unwrap_or(0);
+                acc.violation("uuid:depends-on-address-or-history", inputs[i].len(), || (format!("process {}: input #{} in a reused buffer got a wrong identifier", s, i), json!({"kind":"uuid-reuse","index":i})));
             } else if let Some(i) = l.strip_prefix("MISMATCH input ") {
                 let i: usize = i.parse().unwrap_or(0);
                 acc.violation("uuid:differs-from-rfc4122-v5", inputs[i].len(), || (format!("process {}: input #{} differs from the independent computation", s, i), json!({"kind":"uuid","bytes_hex":hex(&inputs[i][..inputs[i].len().min(4096)]),"len":inputs[i].len()})));
@@ -478,7 +523,7 @@ pub fn run_c18(tier: Tier) -> i32 {
         prop: "C18",
         tier,
         level: "exploration",
-        rule: format!("{} inputs: all byte strings of length <= 5 over {{a, LF, CR, 00, ff}}; every length 0..=200 of a fixed pattern and lengths around every multiple of 64 up to 4 KiB (all SHA-1 padding boundaries); 1 MiB; the corpus files as they are, with CRLF, and without final newline. Each compared with an independent SHA-1 / RFC 4122 v5 computation (validated against the FIPS 180 vectors at start-up), in this process and in {} separately started processes (different hash seeds), each of which first lets two threads race on the lazily built namespace. distinct = distinct identifiers", n, nprocs),
+        rule: format!("{} inputs: all byte strings of length <= 4 over {{a, LF, CR, 00, ff, space, #, EF, BB, BF}}; a small mapping, 'x', the empty file and the small corpus files with each of 12 invisible prefixes / suffixes (byte order marks, blanks, line terminators, NUL); every input once more through one reused buffer (same address and length, different content, consecutively); every length 0..=200 of a fixed pattern and lengths around every multiple of 64 up to 4 KiB (all SHA-1 padding boundaries); 1 MiB; the corpus files as they are, with CRLF, and without final newline. Each compared with an independent SHA-1 / RFC 4122 v5 computation (validated against the FIPS 180 vectors at start-up), in this process and in {} separately started processes (different hash seeds), each of which first lets two threads race on the lazily built namespace. distinct = distinct identifiers", n, nprocs),
         bounds: json!({"inputs": n, "processes": nprocs}),
         assumptions: vec!["the function delegates to uuid / sha1_smol; this is the weakest use of the technique in the set (small exhaustive input space, no state)".into()],
         trusted_base: vec!["rustc/std".into(), "independent SHA-1 / UUIDv5 in pgmc/src/sha1.rs".into()],
@@ -502,6 +547,12 @@ pub fn recheck_c18(case: &Value) -> Vec<String> {
                     c18_check(&inp, &mut acc);
                 }
             }
+        }
+        "uuid-reuse" => {
+            if !c18_same_address(&c18_inputs()).is_empty() {
+                return vec!["uuid:depends-on-address-or-history".into()];
+            }
+            return vec![];
         }
         "uuid-race" | "uuid-process" => {
             // re-execute in a fresh process (the namespace global of this process is already built)
